@@ -199,6 +199,23 @@ Theorem C17_default_policy_wellformed :
 Proof. exact default_policy_wellformed. Qed.
 Print Assumptions C17_default_policy_wellformed.
 
+(* --- the acceptor of the correspondence run ------------------------------------------- *)
+
+(* the jitter is random and float64 rounds, so the run compares an observed decision of
+   GenericPolicy{DefaultPredicate, ExponentialBackoff} through [accept_decision]; it never
+   rejects what the model can produce (random draw within its range; a float below -2^63
+   does not convert to a positive integer) *)
+Theorem C17_acceptor_complete :
+  forall guarded oob rnd e maxretry minw maxw attempt o,
+    (forall n, 0 < n -> 0 <= rnd n < n) ->
+    (forall q, qtrunc q < - two63 -> oob q <= 0) ->
+    accept_decision guarded maxretry minw maxw e attempt o
+      (project_decision
+         (generic_retry (mkPolicy maxretry minw maxw default_predicate (exp_backoff_gen guarded oob rnd e))
+                        attempt o)) <> VNo.
+Proof. exact accept_decision_complete. Qed.
+Print Assumptions C17_acceptor_complete.
+
 (* --- the hypotheses are satisfiable: concrete runs ---------------------------------- *)
 
 Definition ex_policy := table_policy 3 100 1000 [50; 5000] 7.
